@@ -34,6 +34,8 @@ def tokenize(s):
         i = m.end()
     if any(t[0] == "text" and ">" in t[1] for t in out):
         return "stray '>' in text"
+    if any(t[0] == "text" and re.search(r"&(?!(?:amp|lt|gt|apos|quot);)", t[1]) for t in out):
+        return "unescaped '&' in text"
     return out
 
 
@@ -70,6 +72,7 @@ def words(s, tagged):
         if isinstance(toks, str):
             return None
         s = " ".join(t[1] for t in toks if t[0] == "text")
+        s = s.replace("&lt;", "<").replace("&gt;", ">").replace("&apos;", "'").replace("&quot;", '"').replace("&amp;", "&")      # what an XML reader hands to the engine
     # pauses aside: pause punctuation and spacing are not words ("a-th" is glued under TTS=None, "a <phoneme>-th</phoneme>" under SSML)
     return re.sub(r"[,;\s]", "", s)
 
@@ -83,7 +86,10 @@ def exprs(rng, n):
          # author ids with quotes and markup characters (they are written into <mark name=...>), signed roots (the rule bookmarks the parent)
          mml.math(mml.mrow(mml.mi("x", id="a'b<c&d"), mml.mo("+", id='p"q'), mml.mn("1", id="n>1"), mml.mo("-"), mml.mi("B", id="''"))),
          mml.math(mml.mrow(mml.mo("-"), mml.el("mroot", mml.mi("x"), mml.mn("3")), mml.mo("+"), mml.mrow(mml.mo("-"), mml.el("msqrt", mml.mi("y"))))),
-         mml.math(mml.mrow(mml.mo("+"), mml.el("msqrt", mml.mrow(mml.mi("a"), mml.mo("+"), mml.mn("2")))))]
+         mml.math(mml.mrow(mml.mo("+"), mml.el("msqrt", mml.mrow(mml.mi("a"), mml.mo("+"), mml.mn("2"))))),
+         # token text with markup characters: inside SSML / SAPI5 it has to be escaped (and read back as the same words)
+         mml.math(mml.mrow(mml.mtext("a<b & c"), mml.mo("+"), mml.mi("x"), mml.mo("<"), mml.mtext("if x>1 && y<2"), mml.mo("&"), mml.mi("A&B"))),
+         mml.math(mml.mrow(mml.N("ms", text="1<2>0"), mml.mo("="), mml.mtext("R&D"), mml.mo("+"), mml.mtext("&amp;")))]
     return A + mml.corpus_basic() + [mml.math(mml.gen_expr(rng, rng.randrange(1, 4))) for _ in range(n)]
 
 
@@ -171,7 +177,7 @@ def run(ctx):
                     if w1 != w0:
                         oracle_fail.append({"why": "removing the tags does not leave the TTS=None words", "engine": eng, "config": cfg, "xml": xml, "tagged": s[:300], "none": base["v"][:300],
                                             "lines": lines + [{"op": "set_pref", "name": "TTS", "value": "None"}, {"op": "speech"}, {"op": "set_pref", "name": "TTS", "value": eng}, {"op": "speech"}]})
-            if base.get("r") == "ok" and "<" in base["v"]:
+            if base.get("r") == "ok" and TAG_RE.search(base["v"]):       # (a '<' of the token text itself is not markup)
                 oracle_fail.append({"why": "markup with no engine selected", "config": cfg, "xml": xml, "speech": base["v"][:300], "lines": lines + [{"op": "speech"}]})
             if len(samples) < 3 and outs["SAPI5"].get("r") == "ok" and "<" in outs["SAPI5"]["v"]:
                 samples.append({"xml": xml, "ssml": outs["SSML"].get("v"), "sapi5": outs["SAPI5"].get("v"), "none": base.get("v")})
